@@ -58,20 +58,72 @@ func (ms *c01Modset) sites(localOnly bool) []c01Site {
 	return out
 }
 
-// groupings defined inside the statements of l (scoped ones travel with a copy of l)
-func c01ScopedIn(l []*c01Stmt) map[*c01Stmt]bool {
-	out := map[*c01Stmt]bool{}
-	c01WalkList(l, func(s *c01Stmt) {
-		if s.T == tGrouping {
-			out[s] = true
+// c01ScopedResolve: does every uses of a SCOPED grouping inside l (deep) find, by the name it
+// prints and walking the enclosing scopes that lie inside l innermost first (what the parser
+// does), its own target or a copy of it? A grouping of the same name elsewhere in l does not
+// count: names of scoped groupings are only unique along one scope chain.
+func (ms *c01Modset) c01ScopedResolve(l []*c01Stmt, frames [][]*c01Stmt) bool {
+	grouping := func(g *c01Stmt, fr [][]*c01Stmt) bool { return true }
+	grouping = func(g *c01Stmt, fr [][]*c01Stmt) bool {
+		f2 := append(append([][]*c01Stmt(nil), fr...), g.Grps)
+		for _, ng := range g.Grps {
+			if !grouping(ng, f2) {
+				return false
+			}
 		}
-	})
-	return out
+		return ms.c01ScopedResolve(g.Kids, f2)
+	}
+	for _, s := range l {
+		switch s.T {
+		case tUses:
+			if ms.ownerOf(s.Target) == nil {
+				var hit *c01Stmt
+				for i := len(frames) - 1; i >= 0 && hit == nil; i-- {
+					for _, g := range frames[i] {
+						if g.Name == s.Target.Name {
+							hit = g
+							break
+						}
+					}
+				}
+				if hit == nil || !c01Same(hit, s.Target) {
+					return false
+				}
+			}
+			for _, a := range s.Augs {
+				if !ms.c01ScopedResolve(a.Kids, frames) {
+					return false
+				}
+			}
+		case tNode:
+			f2 := append(append([][]*c01Stmt(nil), frames...), s.Grps)
+			for _, g := range s.Grps {
+				if !grouping(g, f2) {
+					return false
+				}
+			}
+			if !ms.c01ScopedResolve(s.Kids, f2) {
+				return false
+			}
+		case tGrouping:
+			if !grouping(s, frames) {
+				return false
+			}
+		case tAugment:
+			if !ms.c01ScopedResolve(s.Kids, frames) {
+				return false
+			}
+		}
+	}
+	return true
 }
 
 // can every uses inside l (deep) be written in file `to`?
 func (ms *c01Modset) usesVisible(l []*c01Stmt, to *c01Module) bool {
-	scoped := c01ScopedIn(l)
+	// scoped groupings: only fine when the definition travels along with l
+	if !ms.c01ScopedResolve(l, nil) {
+		return false
+	}
 	ok := true
 	c01WalkList(l, func(s *c01Stmt) {
 		if s.T != tUses {
@@ -80,17 +132,6 @@ func (ms *c01Modset) usesVisible(l []*c01Stmt, to *c01Module) bool {
 		owner := ms.ownerOf(s.Target)
 		switch {
 		case owner == nil:
-			// scoped grouping: only fine when its definition travels along; name equality is what
-			// the parser sees, so a copy with the same name in scope also counts
-			found := scoped[s.Target]
-			for g := range scoped {
-				if g.Name == s.Target.Name {
-					found = true
-				}
-			}
-			if !found {
-				ok = false
-			}
 		case ms.isLocal(owner):
 			if !ms.isLocal(to) {
 				ok = false
@@ -321,6 +362,15 @@ func (ms *c01Modset) inlineAugment(k int) bool {
 		if c01SamePath(e.Path, a.Path) {
 			return false
 		}
+		// an EARLIER augment whose path runs through a node this augment adds fails ("target not
+		// found": augments apply in textual order) and would succeed once the body is inline
+		if len(e.Path) > len(a.Path) && c01SamePath(e.Path[:len(a.Path)], a.Path) {
+			for _, x := range a.Kids {
+				if x.T == tNode && x.Name == e.Path[len(a.Path)] {
+					return false
+				}
+			}
+		}
 	}
 	var node, implied *c01Stmt
 	var file *c01Module
@@ -462,7 +512,81 @@ func (ms *c01Modset) moveToImport(r *gen.Rng) bool {
 	return true
 }
 
-var c01TNames = []string{"load", "inline-uses", "extract-grouping", "inline-augment", "to-submodule", "to-import", "independent-copies"}
+// local groupings (module level, nested, sibling-scoped) in textual order
+func (ms *c01Modset) localGroupings() []*c01Stmt {
+	var out []*c01Stmt
+	for _, m := range append([]*c01Module{ms.Main}, ms.Subs...) {
+		m.walk(func(s *c01Stmt) {
+			if s.T == tGrouping {
+				out = append(out, s)
+			}
+		})
+	}
+	return out
+}
+
+// sameNameGroupings: is some grouping NAME bound by two different local definitions (necessarily
+// in disjoint or nested scopes), and are two such definitions both used
+func (ms *c01Modset) sameNameGroupings() (dup bool, bothUsed bool) {
+	used := map[*c01Stmt]bool{}
+	for _, m := range ms.files() {
+		m.walk(func(s *c01Stmt) {
+			if s.T == tUses {
+				used[c01Root(s.Target)] = true
+			}
+		})
+	}
+	roots := map[string]map[*c01Stmt]bool{}
+	for _, g := range ms.localGroupings() {
+		if roots[g.Name] == nil {
+			roots[g.Name] = map[*c01Stmt]bool{}
+		}
+		roots[g.Name][c01Root(g)] = true
+	}
+	for _, rs := range roots {
+		nu := 0
+		for r := range rs {
+			if used[r] {
+				nu++
+			}
+		}
+		if len(rs) > 1 {
+			dup = true
+		}
+		if nu > 1 {
+			bothUsed = true
+		}
+	}
+	return
+}
+
+// T7: grouping names are bound names. Give every local grouping definition a fresh name of its own
+// (copies of one definition share it) - every uses follows, since it prints its target's name.
+func (ms *c01Modset) renameApart(fresh func() string) int {
+	names := map[*c01Stmt]string{}
+	for _, g := range ms.localGroupings() {
+		r := c01Root(g)
+		if _, ok := names[r]; !ok {
+			names[r] = fresh()
+		}
+	}
+	// uses inside copied bodies may still point at the definition the copy was taken from
+	for _, m := range ms.files() {
+		m.walk(func(s *c01Stmt) {
+			if s.T == tUses {
+				if n, ok := names[c01Root(s.Target)]; ok {
+					s.Target.Name = n
+				}
+			}
+		})
+	}
+	for _, g := range ms.localGroupings() {
+		g.Name = names[c01Root(g)]
+	}
+	return len(names)
+}
+
+var c01TNames = []string{"load", "inline-uses", "extract-grouping", "inline-augment", "to-submodule", "to-import", "independent-copies", "rename-groupings-apart"}
 
 // applyRandom tries refactoring kind tk on ms (already a private copy)
 func (ms *c01Modset) applyRefactoring(tk int, r *gen.Rng, fresh func() string) (string, bool) {
@@ -508,6 +632,10 @@ func (ms *c01Modset) applyRefactoring(tk int, r *gen.Rng, fresh func() string) (
 	case 5:
 		if ms.moveToImport(r) {
 			return "a grouping", true
+		}
+	case 7:
+		if n := ms.renameApart(fresh); n > 0 {
+			return fmt.Sprintf("%d grouping definitions renamed apart", n), true
 		}
 	}
 	return "", false
